@@ -145,6 +145,32 @@ fn gen_f64_finite(r: &mut Rng) -> f64 {
     }
 }
 
+/// A key of a `u64` field as the engine carries it: Int64 up to i64::MAX, Utf8(decimal) above.
+/// Draws from small values, the neighbourhood of i64::MAX, both decimal-length bands above it
+/// (19 digits: 2^63 .. 10^19-1, 20 digits: 10^19 .. u64::MAX) and the band boundaries.
+fn gen_u64_key(r: &mut Rng) -> SV {
+    const P19: u64 = 10_000_000_000_000_000_000;
+    let u: u64 = match r.below(20) {
+        0..=3 => r.below(50),
+        4 | 5 => r.below(10_000_000_000),
+        6 => i64::MAX as u64 - r.below(3),
+        7..=11 => (1u64 << 63) + r.below(P19 - (1u64 << 63)),
+        12..=16 => P19 + r.below(u64::MAX - P19) + r.below(2),
+        17 => *r.pick(&[1u64 << 63, P19 - 1, P19, u64::MAX]),
+        18 => *r.pick(&[(1u64 << 63) + 1, P19 - 2, P19 + 1, u64::MAX - 1, 9_500_000_000_000_000_000, 12_345_678_901_234_567_890]),
+        _ => r.next(),
+    };
+    if u <= i64::MAX as u64 { SV::Int64(u as i64) } else { SV::Utf8(u.to_string()) }
+}
+
+fn u64_of_key(v: &SV) -> Option<u64> {
+    match v {
+        SV::Int64(i) if *i >= 0 => Some(*i as u64),
+        SV::Utf8(s) => s.parse::<u64>().ok(),
+        _ => None,
+    }
+}
+
 fn gen_any(r: &mut Rng) -> SV {
     match r.below(14) {
         0 => SV::Null,
@@ -229,15 +255,7 @@ fn gen_typed(r: &mut Rng, c: Col, pool: &mut Vec<SV>) -> SV {
     } else {
         match c {
             Col::Int => SV::Int64(gen_i64(r)),
-            Col::U64 => {
-                if r.chance(1, 2) {
-                    SV::Int64(gen_i64(r).wrapping_abs().max(0))
-                } else {
-                    // JSON u64 above i64::MAX becomes Utf8(decimal)
-                    let u = (i64::MAX as u64) + 1 + r.below(1 << 62) + if r.chance(1, 4) { (1 << 62) + r.below(1 << 62) } else { 0 };
-                    SV::Utf8(u.to_string())
-                }
-            }
+            Col::U64 => gen_u64_key(r),
             Col::Float => match r.below(10) {
                 0 | 1 => SV::Int64(r.range(-50, 50)), // integral JSON number in a float field
                 2 => SV::Int64(gen_i64(r)),
@@ -765,7 +783,7 @@ fn main() {
             }
             s.finish();
         }
-        "e2e" => e2e::run(&a),
+        "e2e" | "u64seg" => e2e::run(&a),
         "deep" => e2e::run_deep(&a),
         "rlte" => rlte::run(&a),
         "accept" => accept::run(&a),
@@ -854,6 +872,14 @@ mod e2e {
     /// A returned cell as a key of the column's type.
     fn key_of_cell(c: Col, v: &serde_json::Value) -> Option<SV> {
         match c {
+            Col::U64 => {
+                let u = match v {
+                    serde_json::Value::Number(n) => n.as_u64(),
+                    serde_json::Value::String(s) => s.parse::<u64>().ok(),
+                    _ => None,
+                }?;
+                Some(if u <= i64::MAX as u64 { SV::Int64(u as i64) } else { SV::Utf8(u.to_string()) })
+            }
             Col::Int => v.as_i64().map(SV::Int64),
             Col::Float => v.as_i64().map(SV::Int64).or_else(|| v.as_f64().map(SV::Float64)),
             _ => match v {
@@ -864,7 +890,10 @@ mod e2e {
         }
     }
 
-    fn json_of(v: &SV) -> serde_json::Value {
+    fn json_of(c: Col, v: &SV) -> serde_json::Value {
+        if let (Col::U64, Some(u)) = (c, u64_of_key(v)) {
+            return serde_json::json!(u); // a JSON number, also above i64::MAX
+        }
         match v {
             SV::Null => serde_json::Value::Null,
             SV::Boolean(b) => serde_json::json!(b),
@@ -878,7 +907,8 @@ mod e2e {
 
     pub fn run(a: &snel_harness::out::Args) {
         let rt = tokio::runtime::Builder::new_multi_thread().worker_threads(4).enable_all().build().unwrap();
-        let mut s = Stream::create(&a.out, "e2e");
+        let u64_only = a.stream == "u64seg";
+        let mut s = Stream::create(&a.out, &a.stream);
         let sys_base = a.out.join("c10-sys");
         let sys = rt.block_on(async {
             let reg = Arc::new(RwLock::new(SchemaRegistry::new().expect("registry")));
@@ -895,21 +925,23 @@ mod e2e {
             if a.only.is_some_and(|o| o != i) {
                 continue;
             }
-            let mut r = Rng::for_case(a.seed, "e2e", i);
-            let c = *r.pick(&[Col::Int, Col::Float, Col::PlainStr, Col::Str, Col::Int, Col::PlainStr]);
+            let mut r = Rng::for_case(a.seed, &a.stream, i);
+            let c = if u64_only { Col::U64 } else { *r.pick(&[Col::Int, Col::Float, Col::PlainStr, Col::Str, Col::Int, Col::PlainStr, Col::U64]) };
             let ty = match c {
+                Col::U64 => "u64",
                 Col::Int => "int",
                 Col::Float => "float",
                 _ => "string",
             };
-            let ev = format!("e{}x{}", a.seed, i);
+            let ev = format!("{}{}x{}", if u64_only { "u" } else { "e" }, a.seed, i);
             let n_rows = match r.below(4) { 0 => 1 + r.below(5), 1 => 30 + r.below(40), _ => 5 + r.below(25) } as usize;
-            let n_ctx = 1 + r.below(5) as usize;
+            let n_ctx = 1 + r.below(if c == Col::U64 { 3 } else { 5 }) as usize;
             let mut rows: Vec<(SV, u64, usize)> = vec![]; // (key, k, ctx)
             for j in 0..n_rows {
                 // conservative values (what survives storage unchanged is C07's subject): small ints,
                 // dyadic floats, short lowercase words; the `str` column adds number-looking words
                 let v = match c {
+                    Col::U64 => gen_u64_key(&mut r),
                     Col::Int => SV::Int64(r.range(-40, 40)),
                     Col::Float => if r.chance(1, 5) { SV::Int64(r.range(-20, 20)) } else { SV::Float64(r.range(-400, 400) as f64 / 8.0) },
                     Col::PlainStr => {
@@ -923,6 +955,10 @@ mod e2e {
             // where in the history the flushes happen
             let n_flush = r.below(3) as usize;
             let mut flush_at: Vec<usize> = (0..n_flush).map(|_| r.below(n_rows as u64 + 1) as usize).collect();
+            if c == Col::U64 && r.chance(2, 3) {
+                // most or all rows in segments (the rest stays in the memtable)
+                flush_at.push(if r.chance(1, 2) { n_rows } else { n_rows - r.below(n_rows as u64 / 3 + 1) as usize });
+            }
             flush_at.sort();
             let queries: Vec<(bool, bool, Option<usize>, Option<usize>, Option<i64>, Option<usize>, bool)> = (0..8)
                 .map(|_| {
@@ -948,7 +984,7 @@ mod e2e {
                         sys.cmd("FLUSH").await?;
                         fi += 1;
                     }
-                    let payload = serde_json::json!({"k": k, "v": json_of(v)});
+                    let payload = serde_json::json!({"k": k, "v": json_of(c, v)});
                     let resp = sys.cmd(&format!("STORE {ev} FOR c{ctx} PAYLOAD {payload}")).await?;
                     if !resp.contains("200") {
                         return Err(format!("store rejected: {payload} -> {resp}"));
@@ -1007,6 +1043,18 @@ mod e2e {
                 let m = offset.unwrap_or(0);
                 let st = resp.status;
                 summary.push(format!("{st}:{}", resp.rows.len()));
+                if c == Col::U64 && *ordered {
+                    // flushed keys above i64::MAX whose decimal lengths differ (text order ≠ numeric order)
+                    let last_flush = flush_at.last().cloned().unwrap_or(0);
+                    let big: Vec<(usize, usize)> = matching.iter()
+                        .filter(|x| (x.1 as usize) <= last_flush)
+                        .filter_map(|x| u64_of_key(&x.0).filter(|u| *u > i64::MAX as u64).map(|u| (u.to_string().len(), x.2)))
+                        .collect();
+                    let mixed = big.iter().any(|a| big.iter().any(|b| a.0 != b.0));
+                    let mixed_same_ctx = big.iter().any(|a| big.iter().any(|b| a.0 != b.0 && a.1 == b.1));
+                    if mixed { s.tally("q_ordered_u64_2plus_flushed_keys_above_i64max_of_different_length"); }
+                    if mixed_same_ctx { s.tally("q_ordered_u64_such_keys_in_one_context"); }
+                }
                 s.tally(match (ordered, limit.is_some(), offset.is_some()) {
                     (true, true, true) => "q_ordered_limit_offset",
                     (true, true, false) => "q_ordered_limit",
